@@ -219,7 +219,7 @@ def create_sink(net, junction, mdot_kg_per_s, scaling=1., name=None, index=None,
     :param junction: The index of the junction to which the sink is connected
     :type junction: int
     :param mdot_kg_per_s: The required mass flow
-    :type mdot_kg_per_s: float, default None
+    :type mdot_kg_per_s: float
     :param scaling: An optional scaling factor to be set customly
     :type scaling: float, default 1
     :param name: A name tag for this sink
@@ -262,7 +262,7 @@ def create_source(net, junction, mdot_kg_per_s, scaling=1., name=None, index=Non
     :param junction: The index of the junction to which the source is connected
     :type junction: int
     :param mdot_kg_per_s: The required mass flow
-    :type mdot_kg_per_s: float, default None
+    :type mdot_kg_per_s: float
     :param scaling: An optional scaling factor to be set customly
     :type scaling: float, default 1
     :param name: A name tag for this source
@@ -307,7 +307,7 @@ def create_mass_storage(net, junction, mdot_kg_per_s, init_m_stored_kg=0, min_m_
     :type junction: int
     :param mdot_kg_per_s: The stationary mass flow. (if fluid flows into storage: > 0,
                           if fluid flows from storage to net: < 0)
-    :type mdot_kg_per_s: float, default None
+    :type mdot_kg_per_s: float
     :param init_m_stored_kg: The initially stored mass in the storage
     :type init_m_stored_kg: float, default 0
     :param min_m_stored_kg: Minimum amount of fluid that has to remain in the storage unit. (To be
@@ -669,7 +669,7 @@ def create_valve(net, junction, element, et, inner_diameter_mm, opened=True, los
             highest already existing index is selected.
     :type index: int, default None
     :param type: An identifier for special types of valves
-    :type type: str, default None
+    :type type: str, default "valve"
     :param kwargs: Additional keyword arguments will be added as further columns to the\
             net["valve"] table
     :return: index - The unique ID of the created element
@@ -717,7 +717,7 @@ def create_pump(net, from_junction, to_junction, std_type, name=None, index=None
     :param std_type: There are currently three different std_types. This std_types are P1, P2, P3.\
             Each of them describes a specific pump behaviour setting volume flow and pressure in\
             context.
-    :type std_type: string, default None
+    :type std_type: string
     :param name: A name tag for this pump
     :type name: str, default None
     :param index: Force a specified ID if it is available. If None, the index one higher than the\
@@ -1305,7 +1305,7 @@ def create_sinks(net, junctions, mdot_kg_per_s, scaling=1., name=None, index=Non
     :param junctions: The index of the junctions to which the sinks are connected
     :type junctions: Iterable(int)
     :param mdot_kg_per_s: The required mass flow
-    :type mdot_kg_per_s: Iterable or float, default None
+    :type mdot_kg_per_s: Iterable or float
     :param scaling: An optional scaling factor to be set customly
     :type scaling: Iterable or float, default 1
     :param name: Name tags for the sinks
@@ -1350,7 +1350,7 @@ def create_sources(net, junctions, mdot_kg_per_s, scaling=1., name=None, index=N
     :param junctions: The index of the junctions to which the sources are connected
     :type junctions: Iterabl(int)
     :param mdot_kg_per_s: The required mass flow
-    :type mdot_kg_per_s: Iterable or float, default None
+    :type mdot_kg_per_s: Iterable or float
     :param scaling: An optional scaling factor to be set customly
     :type scaling: Iterable or float, default 1
     :param name: Name tags for the sources
@@ -1905,7 +1905,7 @@ def create_heat_exchangers(net, from_junctions, to_junctions, qext_w, inner_diam
             service
     :type in_service: Iterable(bool) or bool, default True
     :param type: Not used yet
-    :type type: Iterable(str) or str, default "heat exchanger"
+    :type type: Iterable(str) or str, default "heat_exchanger"
     :param kwargs: Additional keyword arguments will be added as further columns to the\
                     net["heat_exchanger"] table
     :return: index - The unique IDs of the created heat exchangers
